@@ -1165,7 +1165,7 @@ func (s *seq) sizeSave() {
 	var gs []group
 	n := 4 + s.r.Intn(3)
 	for k := 0; k < n; k++ {
-		sz := (5 << 20) + s.r.Intn(4<<20)
+		sz := maxSize/6 + s.r.Intn(maxSize/8)
 		if s.r.Chance(20) {
 			sz = maxSize - dataOff - 4 - s.r.Intn(3) // the largest payloads that still fit an empty file
 		}
@@ -1357,7 +1357,7 @@ func runSeq(c *hx.Ctx, r *hx.Rng, id int, root string, profile int, rw int) {
 	nops := 6 + s.r.Intn(30)
 	s.crashMax, s.tornPer = 24, 1
 	if c.Tier == "thorough" {
-		s.crashMax, s.tornPer = 60, 2
+		s.crashMax, s.tornPer = 32, 1
 	}
 	if v := c.Arg("crashmax", ""); v != "" {
 		s.crashMax, _ = strconv.Atoi(v)
@@ -1375,7 +1375,7 @@ func runSeq(c *hx.Ctx, r *hx.Rng, id int, root string, profile int, rw int) {
 	}
 	switch profile {
 	case 1: // start close to the first slot-table boundary
-		n := int(capSlots) - 30 + s.r.Intn(50)
+		n := maxInt(1, int(capSlots)-30) + s.r.Intn(50)
 		k := 1 + s.r.Intn(3)
 		var gs []group
 		for j := 0; j < k; j++ {
@@ -1393,7 +1393,7 @@ func runSeq(c *hx.Ctx, r *hx.Rng, id int, root string, profile int, rw int) {
 		s.advanceCommit()
 		nops = 6 + s.r.Intn(16)
 	case 2: // two or three files from the start
-		n := 2*int(capSlots) - 20 + s.r.Intn(int(capSlots)/2)
+		n := maxInt(2, 2*int(capSlots)-20) + s.r.Intn(int(capSlots)/2)
 		s.doSave(1, []group{{n: n / 2, term: 1, typ: 0, pl: payload{data: []byte{1}}}, {n: n - n/2, term: 2, typ: 0, pl: payload{}}}, 1, 0)
 		s.crossed = true
 		s.advanceCommit()
@@ -1416,7 +1416,7 @@ func runSeq(c *hx.Ctx, r *hx.Rng, id int, root string, profile int, rw int) {
 		var n int
 		switch s.r.Intn(6) {
 		case 1:
-			n = int(capSlots) - 3 - s.r.Intn(12)
+			n = maxInt(1, int(capSlots)-3-s.r.Intn(12))
 		case 2:
 			n = int(capSlots) + 2 + s.r.Intn(9)
 		case 3, 4:
@@ -1430,7 +1430,7 @@ func runSeq(c *hx.Ctx, r *hx.Rng, id int, root string, profile int, rw int) {
 			s.doSave(1, []group{{n: n, term: 1, typ: 0, pl: pl}}, 1, 0)
 			s.crossed = n > int(capSlots)
 			// keep the tail of the first file uncommitted so that conflicts can reach back into it
-			s.commit = uint64(minInt(n, int(capSlots)) - 3 - s.r.Intn(8))
+			s.commit = uint64(maxInt(0, minInt(n, int(capSlots))-3-s.r.Intn(8)))
 			three := n > 2*int(capSlots)
 			if !three && s.r.Chance(35) {
 				s.commit = s.last - uint64(s.r.Intn(3))
